@@ -88,4 +88,26 @@ func init() {
 		gots.InsertPTS(b[14:], a[2].U())
 		return VOk(VL(VB(b), protect(func() Val { return newPes(b) })))
 	})
+	register("pes.withpes", func(a []Val) Val {
+		p, ok := pktOf(a[0].B)
+		if !ok {
+			return VBad()
+		}
+		packet.WithPES(p, a[1].U())
+		hdr := protect(func() Val {
+			hb, err := packet.PESHeader(p)
+			if err != nil {
+				return VErr(errCode(err))
+			}
+			return VOk(VB(hb))
+		})
+		dec := protect(func() Val {
+			pay, err := packet.Payload(p)
+			if err != nil {
+				return VErr(errCode(err))
+			}
+			return newPes(append([]byte{}, pay...))
+		})
+		return VOk(VL(VB(p[:]), hdr, dec))
+	})
 }
